@@ -244,8 +244,18 @@ func runC13(c *Ctx) {
 					c.Fail(ra, key, p.Pos(call.Pos()), fmt.Sprintf("%s is applied to the destination path: between this call and the rename a crash leaves no file (or a truncated one) where one existed", name))
 				case name == "os.Create" || name == "os.OpenFile":
 					// direct (non-atomic) open: only for special files
-					g := p.callGuard("isSpecial(path)==true", []string{"lib/atomicfile.isSpecial"}, -1, IsTrue, nil)
-					missing, path := p.unguardedFromEntry(fn, call, g)
+					// ... decided here (os.Stat succeeded and says not regular) or by a classifier of the
+					// package that answers true only then (its returns are checked below)
+					notReg, statOK := c13SpecialGuards(p)
+					missing, path := p.unguardedFromEntry(fn, call, notReg, statOK)
+					if len(missing) > 0 {
+						for _, h := range c13Classifiers(p) {
+							g := p.callGuard(p.FName(h)+"(path)==true", []string{p.FName(h)}, -1, IsTrue, nil)
+							if m2, p2 := p.unguardedFromEntry(fn, call, g); len(m2) == 0 {
+								missing, path = m2, p2
+							}
+						}
+					}
 					c.Check(len(missing) == 0, ra, key, p.Pos(call.Pos()), "direct open only for special files", "regular files are opened directly instead of write-then-rename", path...)
 				default:
 					c.Pass(ra, key, p.Pos(call.Pos()), name+" on the temporary file")
@@ -291,25 +301,17 @@ func runC13(c *Ctx) {
 			c.Check(okDir, ra, "lib/atomicfile.New tempdir", p.Pos(tmp[0].Pos()), "temp file created in filepath.Dir(dest): same filesystem, rename is atomic", "temp file is not created in the destination's directory (rename may cross filesystems / not be atomic)")
 		}
 	}
-	// isSpecial: true only for a path that RESOLVES (os.Stat, following links) to a non-regular file
-	if sp := p.Func("lib/atomicfile.isSpecial"); sp == nil {
-		c.Undecided(ra, "atomicfile.isSpecial", "-", "function not found")
-	} else {
-		notReg := p.callGuard("Stat(path).Mode().IsRegular()==false", []string{"(io/fs.FileMode).IsRegular"}, -1, IsFalse, func(ci ssa.CallInstruction) bool {
-			return dependsOn(ci.Common().Args[0], func(x ssa.Value) bool {
-				call, _ := resultOf(x)
-				return call != nil && p.calleeName(call.Common()) == "os.Stat"
-			})
-		})
-		statOK := p.callGuard("os.Stat err==nil", []string{"os.Stat"}, 1, IsNil, nil)
+	// the classifier (isSpecial today): true only for a path that RESOLVES (os.Stat, following links) to a non-regular file
+	for _, sp := range c13Classifiers(p) {
+		notReg, statOK := c13SpecialGuards(p)
 		n := 0
 		for _, r := range returnsOf(sp) {
 			if b, ok := boolConst(retVal(r, 0)); ok && !b {
 				continue
 			}
 			n++
-			missing, path := p.unguardedFromEntry(sp, r, notReg, statOK)
-			c.Check(len(missing) == 0, ra, fmt.Sprintf("lib/atomicfile.isSpecial true-return#%d", n), p.Pos(r.Pos()), "special only if os.Stat (following symlinks) says not regular", fmt.Sprintf("isSpecial can return true without %v: e.g. a symlink to a regular file would be opened directly and truncated in place", missing), path...)
+			missing, path := p.trueReturnMissing(sp, r, 0, notReg, statOK)
+			c.Check(len(missing) == 0, ra, fmt.Sprintf("%s true-return#%d", p.FName(sp), n), p.Pos(r.Pos()), "special only if os.Stat (following symlinks) says not regular", fmt.Sprintf("%s can return true without %v: e.g. a symlink to a regular file would be opened directly and truncated in place", p.FName(sp), missing), path...)
 		}
 	}
 	if cl := p.Func("lib/atomicfile.(*atomicFile).Close"); cl == nil {
@@ -759,4 +761,30 @@ func (p *Prog) isTempScratch(fn *ssa.Function, ci ssa.CallInstruction) bool {
 		}
 	}
 	return false
+}
+
+// c13SpecialGuards: os.Stat succeeded, and the mode it reported is not regular.
+func c13SpecialGuards(p *Prog) (Guard, Guard) {
+	notReg := p.callGuard("Stat(path).Mode().IsRegular()==false", []string{"(io/fs.FileMode).IsRegular"}, -1, IsFalse, func(ci ssa.CallInstruction) bool {
+		return dependsOn(ci.Common().Args[0], func(x ssa.Value) bool {
+			call, _ := resultOf(x)
+			return call != nil && p.calleeName(call.Common()) == "os.Stat"
+		})
+	})
+	statOK := p.callGuard("os.Stat err==nil", []string{"os.Stat"}, 1, IsNil, nil)
+	return notReg, statOK
+}
+
+// c13Classifiers: the functions of lib/atomicfile that answer a boolean about a path by asking
+// os.Stat (isSpecial today) - found by shape, not by name.
+func c13Classifiers(p *Prog) []*ssa.Function {
+	var out []*ssa.Function
+	for _, fn := range p.pkgFuncs("lib/atomicfile") {
+		res := fn.Signature.Results()
+		if res.Len() != 1 || !isBool(res.At(0).Type()) || len(p.callsIn(fn, "os.Stat")) == 0 {
+			continue
+		}
+		out = append(out, fn)
+	}
+	return out
 }
